@@ -488,7 +488,9 @@ MkCase(r, cv, restLen, enc, c) == [rec |-> r, cv |-> cv, rest |-> restLen, enc |
 (* the uncorrupted cases: a class vector, encoded, followed by trailing bytes *)
 BaseCasesOf(r) ==
   UNION { LET enc0 == Encode(r, cv)
-          IN {MkCase(r, cv, Len(rest), enc0 \o rest, NoCor) : rest \in Rests}
+             \* full product: trailing bytes only behind the vectors with at most one field off base
+          IN {MkCase(r, cv, Len(rest), enc0 \o rest, NoCor) :
+                rest \in (IF ValueMode = "full" /\ cv \notin StarOf(r) THEN {<<>>} ELSE Rests)}
         : cv \in Vectors(r) }
 BaseCases == UNION {BaseCasesOf(r) : r \in Records}
 
